@@ -114,6 +114,7 @@ def grid_cases(draw):
     case["nonuniform"] = draw(st.booleans())
     case["explicit_region"] = draw(st.booleans())
     case["descending"] = draw(st.sampled_from(["none", "none", "north", "east", "both"]))
+    case["coords_form"] = draw(st.sampled_from(COORDS_FORMS))
     case["orders"] = draw(vbuild.orders_strategy())
     return case
 
@@ -155,6 +156,30 @@ def with_span(desc, values):
     return dict(desc, span=float(max(abs(v) for v in values)))
 
 
+COORDS_FORMS = ["ndarray", "ndarray", "list", "dataarray_foreign", "dataarray_same", "index_named", "series", "readonly"]
+
+
+def coords1d_form(ee1, nn1, form):
+    """the 1-D axis vectors of an existing grid in the forms users have them in: plain arrays, lists, the coordinate variables of an
+    xarray grid whose dimensions are called something else (or the same), named pandas indexes, Series with a shuffled index"""
+    if form == "list":
+        return (ee1.tolist(), nn1.tolist())
+    if form in ("dataarray_foreign", "dataarray_same"):
+        de, dn = ("longitude", "latitude") if form == "dataarray_foreign" else ("easting", "northing")
+        existing = xr.Dataset(coords={de: (de, ee1), dn: (dn, nn1)})
+        return (existing[de], existing[dn])
+    if form == "index_named":
+        return (pd.Index(ee1, name="lon"), pd.Index(nn1, name="lat"))
+    if form == "series":
+        return (pd.Series(ee1, index=np.arange(ee1.size)[::-1] + 3), pd.Series(nn1, index=np.arange(nn1.size) + 7))
+    if form == "readonly":
+        a, b = ee1.copy(), nn1.copy()
+        a.setflags(write=False)
+        b.setflags(write=False)
+        return (a, b)
+    return (ee1, nn1)
+
+
 def check_grid(case, ctx):
     gridder, default_region = make_gridder(case)
     proj = make_projection(with_span(case["projection"], case["region"]))
@@ -186,7 +211,7 @@ def check_grid(case, ctx):
         if case.get("descending") in ("east", "both"):
             ee1 = ee1[::-1].copy()
         if case["mode"] == "coords1d":
-            coords = (ee1, nn1)
+            coords = coords1d_form(ee1, nn1, case.get("coords_form", "ndarray"))
             n_extra = 0
         else:
             m_e, m_n = np.meshgrid(ee1, nn1)
@@ -214,6 +239,8 @@ def check_grid(case, ctx):
         ds = gridder.grid(**defaults.method_kwargs("grid", call))
     ctx.check(isinstance(ds, xr.Dataset), "grid must return a Dataset")
     ctx.check(set(ds.data_vars) == set(names), "data variables %r, expected %r", list(ds.data_vars), list(names))
+    ctx.check(set(ds.dims) == set(dims), "the Dataset has dimensions %r, expected exactly %r", sorted(ds.dims), sorted(dims))
+    ctx.check(all(d in ds.indexes for d in dims), "the dimensions %r are not all index coordinates (indexes: %r)", dims, list(ds.indexes))
     ctx.check(np.array_equal(ds.coords[dims[1]].values, exp_e), "easting coordinate is not that of grid_coordinates for the same arguments: %r vs %r", ds.coords[dims[1]].values[:4], exp_e[:4])
     ctx.check(np.array_equal(ds.coords[dims[0]].values, exp_n), "northing coordinate is not that of grid_coordinates for the same arguments")
     pe, pn = np.meshgrid(exp_e, exp_n)
